@@ -3,6 +3,7 @@ package memberlist
 func init() {
 	vRegister("H_C02_Refute", H_C02_Refute)
 	vRegister("H_C02_SelfAnnounce", H_C02_SelfAnnounce)
+	vRegister("H_C02_Startup", H_C02_Startup)
 }
 
 // vQueuedFor returns the broadcast currently queued under name (nil if none).
@@ -129,4 +130,67 @@ func H_C02_SelfAnnounce() {
 		vAssert(len(f.ev.log) == 0, "c02.announce.no-event")
 	}
 	vCover("c02.announce")
+}
+
+// C02 at start-up: Create starts the listeners (newMemberlist) before it announces the node (setAlive), so claims -
+// about the node's own name, e.g. left over from before a restart at another address, or about peers - can be
+// handled while the table holds no record of the local node yet. Whatever arrives in that window, once setAlive
+// has run the node lists itself alive at its own advertised address and has an announcement of exactly that
+// queued; and it has not vouched for an address it does not have.
+func H_C02_Startup() {
+	conf := vBaseConfig()
+	f := vNewML(conf)
+	m := f.m
+	f.del = &vDelegateRec{meta: vBytes(vPick(2))}
+	conf.Delegate = f.del
+	k := vPick(2 + vTier()) // claims handled in the window: 0..1 (thorough 0..2)
+	for i := 0; i < k; i++ {
+		target := []string{vSelf, vPeerA}[vPick(2)]
+		c := vArbClaim(target)
+		vAssume(c.inc < 0xFFFFFFF0)
+		f.vDeliver(target, c)
+	}
+	if vSymbolic() {
+		// setAlive's core (its sockaddr classification of the advertise address only feeds a log line)
+		addr, port, _ := m.refreshAdvertise()
+		a := alive{Incarnation: m.nextIncarnation(), Node: conf.Name, Addr: addr, Port: uint16(port), Meta: f.del.NodeMeta(MetaMaxSize), Vsn: conf.BuildVsnArray()}
+		m.aliveNode(&a, nil, true)
+	} else {
+		vAssert(m.setAlive() == nil, "c02.startup.setalive-ok")
+	}
+	me := m.nodeMap[vSelf]
+	vAssert(me != nil, "c02.startup.self-recorded")
+	if me == nil {
+		return
+	}
+	vAssert(me.State == StateAlive, "c02.startup.self-alive")
+	vAssert(f.vIsMember(vSelf), "c02.startup.self-listed")
+	vAssert(vAnd(vEqBytes(me.Addr, []byte{10, 0, 0, 1}), me.Port == 7946), "c02.startup.own-address")
+	vAssert(vEqBytes(me.Meta, f.del.meta), "c02.startup.own-metadata")
+	vAssert(me.Incarnation == m.incarnation.Load(), "c02.startup.counter-matches")
+	ln := m.LocalNode()
+	vAssert(vAnd(ln != nil, ln.Name == vSelf), "c02.startup.localnode")
+	// the newest alive about ourselves that is waiting to be gossiped is our own announcement: our address, our
+	// current incarnation (an older one, queued while refuting hearsay in the window, is superseded on every peer)
+	n := 0
+	var newest alive
+	for _, lb := range m.broadcasts.tm {
+		mb, ok := lb.b.(*memberlistBroadcast)
+		if !ok || len(mb.msg) == 0 || mb.msg[0] != byte(aliveMsg) {
+			continue
+		}
+		var a alive
+		if decode(mb.msg[1:], &a) == nil && a.Node == vSelf {
+			if n == 0 || a.Incarnation > newest.Incarnation {
+				newest = a
+			}
+			n++
+		}
+	}
+	if n >= 1 {
+		vAssert(vAnd(vEqBytes(newest.Addr, []byte{10, 0, 0, 1}), newest.Port == 7946), "c02.startup.announces-own-address")
+		vAssert(newest.Incarnation == me.Incarnation, "c02.startup.announces-current-incarnation")
+	}
+	vAssert(n >= 1, "c02.startup.announcement-queued")
+	vCover("c02.startup")
 }
